@@ -62,6 +62,15 @@ def fam_rand_arg(case):
                 if not np.isnan(a[i]).all() and not (a[i, int(r[i])] == ext(a[i])):
                     fails.append({"sig": case["sig"], "detail": f"{case['fn']}(axis=1) row {i} of {a.tolist()} -> {int(r[i])} (value {a[i, int(r[i])]}), optimum {ext(a[i])} (seed {seed})"})
                     return fails
+        elif case.get("axis") in ("none", "explicit_none"):
+            r = np.asarray(f(a, random_state=seed) if case["axis"] == "none" else f(a, random_state=seed, axis=None))
+            if np.isnan(a).all():
+                continue
+            ok = r.shape == (a.ndim,) and all(0 <= int(r[k]) < a.shape[k] for k in range(a.ndim)) and a[tuple(int(v) for v in r)] == ext(a)
+            if not ok:
+                fails.append({"sig": case["sig"], "detail": f"{case['fn']}({a.tolist()}{', axis=None' if case['axis'] == 'explicit_none' else ''}) -> {r.tolist()}: "
+                                                            f"not one index per dimension pointing at the optimum {ext(a)} (seed {seed})"})
+                return fails
         else:
             r = np.asarray(f(a, random_state=seed)).ravel()
             if not np.isnan(a).all() and not (a[int(r[0])] == ext(a)):
